@@ -61,7 +61,7 @@ type expectation struct {
 }
 
 func NewRun(p *Prog, prop, tier string) *Run {
-	return &Run{Prop: prop, Tier: tier, P: p, Funcs: map[string]bool{}, start: time.Now(), ruleKinds: map[string]string{}}
+	return &Run{Prop: prop, Tier: tier, P: p, Funcs: map[string]bool{}, start: procStart, ruleKinds: map[string]string{}}
 }
 
 func (r *Run) rule(n string) string {
